@@ -296,29 +296,52 @@ Qed.
 
 (* ---- only SASL-namespace <mechanism/> children advertise ---- *)
 Lemma advertised_spec children m :
-  In m (advertised children) <-> In (s_ns_sasl, s_mechanism, m) children.
+  In m (advertised children) <-> exists text, In (s_ns_sasl, s_mechanism, text) children /\ m = trim text.
 Proof.
   unfold advertised. rewrite in_map_iff. split.
-  - intros ([[ns local] t] & E & Hin). cbn in E. subst t.
+  - intros ([[ns local] t] & E & Hin). cbn in E. subst m.
     apply filter_In in Hin as [Hin Hs]. unfold is_sasl_mech in Hs.
-    apply andb_true_iff in Hs as [Hn Hl]. apply str_eqb_eq in Hn, Hl. subst ns local. exact Hin.
-  - intros Hin. exists (s_ns_sasl, s_mechanism, m). split; [reflexivity|].
+    apply andb_true_iff in Hs as [Hn Hl]. apply str_eqb_eq in Hn, Hl. subst ns local.
+    exists t. split; [exact Hin|reflexivity].
+  - intros (t & Hin & ->). exists (s_ns_sasl, s_mechanism, t). split; [reflexivity|].
     apply filter_In. split; [exact Hin|]. unfold is_sasl_mech. rewrite !str_eqb_refl. reflexivity.
 Qed.
 
+(* trimming: nothing is left to trim, and a name without white space at its ends is itself *)
+Lemma trim_left_fix l :
+  match l with c :: _ => is_xml_ws c = false | [] => True end -> trim_left l = l.
+Proof. destruct l as [|c r]; [reflexivity|]. cbn. intros ->. reflexivity. Qed.
+
+Lemma trim_left_head l :
+  match trim_left l with c :: _ => is_xml_ws c = false | [] => True end.
+Proof.
+  induction l as [|c r IH]; [exact I|]. cbn. destruct (is_xml_ws c) eqn:E; [exact IH|exact E].
+Qed.
+
+Lemma trim_clean l :
+  match l with c :: _ => is_xml_ws c = false | [] => True end ->
+  match rev l with c :: _ => is_xml_ws c = false | [] => True end ->
+  trim l = l.
+Proof.
+  intros H1 H2. unfold trim. rewrite (trim_left_fix l H1), (trim_left_fix (rev l) H2). apply rev_involutive.
+Qed.
+
+Lemma trim_PLAIN : trim s_PLAIN = s_PLAIN /\ trim s_XOAUTH2 = s_XOAUTH2.
+Proof. split; reflexivity. Qed.
+
 Lemma foreign_child_ignored k children user secret w r :
-  (forall m, In m (cred_mechs k) -> ~ In (s_ns_sasl, s_mechanism, m) children) ->
+  (forall m text, In m (cred_mechs k) -> In (s_ns_sasl, s_mechanism, text) children -> m <> trim text) ->
   auth_sasl_features k children user secret w r = ([], ErrPermanent).
 Proof.
-  intros H. apply auth_sasl_no_common. intros m Hm Hin. apply (H m Hm).
-  apply advertised_spec. exact Hin.
+  intros H. apply auth_sasl_no_common. intros m Hm Hin.
+  apply advertised_spec in Hin as (t & Hin & E). exact (H m t Hm Hin E).
 Qed.
 
 Lemma features_written k children user secret w r m payload :
   fst (auth_sasl_features k children user secret w r) = [auth_element m payload] ->
   exists m', fst (auth_sasl_features k children user secret w r)
                = [auth_element m' (plain_payload user secret)] /\
-             In m' (cred_mechs k) /\ In (s_ns_sasl, s_mechanism, m') children.
+             In m' (cred_mechs k) /\ exists text, In (s_ns_sasl, s_mechanism, text) children /\ m' = trim text.
 Proof.
   intros Hw. destruct (mech_sound _ _ _ _ _ _ _ _ Hw) as (m' & E & Hf).
   exists m'. split; [exact E|]. apply first_common_in in Hf as [Hc Hs].
@@ -328,16 +351,17 @@ Qed.
 (* ---------- one level up: the children of <stream:features/> ---------- *)
 Lemma advertised_in_spec nodes m :
   In m (advertised_in nodes) <->
-  exists children, In (s_ns_sasl, s_mechanisms, children) nodes /\ In (s_ns_sasl, s_mechanism, m) children.
+  exists children text, In (s_ns_sasl, s_mechanisms, children) nodes /\
+    In (s_ns_sasl, s_mechanism, text) children /\ m = trim text.
 Proof.
   unfold advertised_in. rewrite in_flat_map. split.
   - intros ([[ns loc] ch] & Hin & Hm). apply filter_In in Hin as [Hin Hf].
     cbn in Hf. apply andb_true_iff in Hf as [H1 H2].
     apply str_eqb_eq in H1. apply str_eqb_eq in H2. subst.
-    exists ch. split; [exact Hin|]. apply advertised_spec. exact Hm.
-  - intros (ch & Hin & Hm). exists (s_ns_sasl, s_mechanisms, ch). split.
+    apply advertised_spec in Hm as (t & Ht & E). exists ch, t. repeat split; assumption.
+  - intros (ch & t & Hin & Hm & E). exists (s_ns_sasl, s_mechanisms, ch). split.
     + apply filter_In. split; [exact Hin|]. reflexivity.
-    + apply advertised_spec. exact Hm.
+    + apply advertised_spec. exists t. split; assumption.
 Qed.
 
 (* several SASL lists in one features element: their mechanisms are all advertised, in
@@ -346,12 +370,12 @@ Lemma advertised_in_app a b : advertised_in (a ++ b) = advertised_in a ++ advert
 Proof. unfold advertised_in. rewrite filter_app, flat_map_app. reflexivity. Qed.
 
 Lemma nodes_no_sasl_list k nodes user secret w r :
-  (forall m children, In m (cred_mechs k) -> In (s_ns_sasl, s_mechanisms, children) nodes ->
-                      ~ In (s_ns_sasl, s_mechanism, m) children) ->
+  (forall m children text, In m (cred_mechs k) -> In (s_ns_sasl, s_mechanisms, children) nodes ->
+                           In (s_ns_sasl, s_mechanism, text) children -> m <> trim text) ->
   auth_sasl_nodes k nodes user secret w r = ([], ErrPermanent).
 Proof.
   intros H. unfold auth_sasl_nodes. apply auth_sasl_no_common.
-  intros m Hm Hin. apply advertised_in_spec in Hin as (ch & H1 & H2). exact (H m ch Hm H1 H2).
+  intros m Hm Hin. apply advertised_in_spec in Hin as (ch & t & H1 & H2 & E). exact (H m ch t Hm H1 H2 E).
 Qed.
 
 (* a <failure/> that answers an element which WAS sent: the element names the first common
